@@ -121,6 +121,15 @@ def _splitting(prog, ci, c, fn, unroll):
             guard(lambda: ex.exec_stmt(st, env))
         else:
             break
+    # locals that hold a gradient evaluation (`force = self.grad(t)`): bound in the environment for the coefficient algebra, and
+    # tracked as events - a kick must use a gradient evaluated AFTER the latest drift
+    gnames = set()
+    for st in ast.walk(fn):
+        if isinstance(st, ast.Assign) and len(st.targets) == 1 and isinstance(st.targets[0], ast.Name) \
+                and any(isinstance(x, ast.Call) and U(x.func) == "self.grad" for x in ast.walk(st.value)):
+            gnames.add(st.targets[0].id)
+            if st.targets[0].id not in env:
+                guard(lambda: ex.exec_stmt(st, env))
     shear_problems = []
 
     def coeff(expr, fname, must_not):
@@ -141,8 +150,14 @@ def _splitting(prog, ci, c, fn, unroll):
         ev = []
         node = as_augassign(node)
         try:
+            if isinstance(node, ast.Assign) and len(node.targets) == 1 and isinstance(node.targets[0], ast.Name) and node.targets[0].id in gnames:
+                ev.append(("G", node.lineno, node.targets[0].id))
+                return ev
             if isinstance(node, ast.AugAssign) and isinstance(node.target, ast.Name):
                 if node.target.id == r and isinstance(node.op, ast.Add):
+                    used = sorted({x.id for x in ast.walk(node.value) if isinstance(x, ast.Name) and x.id in gnames})
+                    if used and not any(isinstance(x, ast.Call) and U(x.func) == "self.grad" for x in ast.walk(node.value)):
+                        ev.append(("U", node.lineno, used[0]))
                     ev.append(("K", node.lineno, str(coeff(node.value, "self.grad", "r"))))
                 elif node.target.id == t and isinstance(node.op, ast.Add):
                     ev.append(("D", node.lineno, str(coeff(node.value, "self.mass.get_velocity", "t"))))
@@ -167,6 +182,17 @@ def _splitting(prog, ci, c, fn, unroll):
     for ev, s in paths:
         if s != RETURN:
             continue
+        # freshness of held gradients along the path
+        fresh = {}
+        for e in ev:
+            if e[0] == "G":
+                fresh[e[2]] = True
+            elif e[0] == "D":
+                fresh = {k_: False for k_ in fresh}
+            elif e[0] == "U" and not fresh.get(e[2], False):
+                problems.append(f"the kick at line {e[1]} uses `{e[2]}`, a gradient evaluated before the latest position update: the momentum is "
+                                f"updated with the force of another point (the map is no longer the leapfrog of one Hamiltonian)")
+                break
         seq = [e for e in ev if e[0] in ("K", "D", "R", "F", "X")]
         # fold  D R F  into the composite bounded drift  B
         word = []
@@ -247,6 +273,19 @@ def _fd_denominator(c, fd):
                    and {U(n.value.left), U(n.value.right)} == {h, f"{tp_}[{U(n.targets[0].slice)}]"}]
         if len(probes) != 1:
             problems.append(f"the probe is not moved by exactly the step `{h}` that divides the difference")
+        else:
+            # one coordinate moves per quotient: the probe is a FRESH copy of the point for every coordinate
+            tg_ = probes[0].target if isinstance(probes[0], ast.AugAssign) else probes[0].targets[0]
+            pn_ = tg_.value.id if isinstance(tg_.value, ast.Name) else None
+            loops_q = [l for l in ast.walk(fd) if isinstance(l, ast.For) and any(x is quot[0] for x in ast.walk(l))]
+            if pn_ is not None and loops_q:
+                defs_p = [n for n in ast.walk(fd) if isinstance(n, ast.Assign) and len(n.targets) == 1 and U(n.targets[0]) == pn_]
+                fresh = [d for d in defs_p if any(x is d for x in ast.walk(loops_q[-1]))
+                         and U(d.value) in (f"{fd.args.args[1].arg}.copy()", f"copy({fd.args.args[1].arg})", f"array({fd.args.args[1].arg})",
+                                            f"{fd.args.args[1].arg} + 0", f"array({fd.args.args[1].arg}, copy=True)")]
+                if not fresh:
+                    problems.append(f"the probe `{pn_}` is not re-copied from the point inside the coordinate loop: the displacements of earlier "
+                                    f"coordinates stay in it, so later quotients are not partial derivatives at the point")
         # the difference is posterior(probe) - posterior(t), both un-tempered evaluations of the user's density
         num = quot[0].left
         ok_num = False
